@@ -185,7 +185,7 @@ pub fn run(rep: &Report) -> i32 {
         rep.machinery(format!("C17 baseline not well-typed per R1: {v:?}"));
     }
     let pool: Vec<String> = identifier_pool().into_iter().filter(|n| !is_reserved(n)).collect();
-    rep.set("bounds", json!({"roles": ROLES, "identifiers": pool.len(), "layouts": ALL_LAYOUTS.len(), "pairs_of_roles": !quick}));
+    rep.set("bounds", json!({"roles": ROLES, "identifiers": pool.len(), "layouts": ALL_LAYOUTS.len(), "pairs_of_roles": if quick {"every 11th identifier"} else {"every 3rd identifier"}}));
     // (1) one role at a time x every identifier x layouts
     let mut jobs: Vec<(usize, usize, Option<(usize, usize)>)> = vec![];
     for r in 0..ROLES.len() {
@@ -193,10 +193,10 @@ pub fn run(rep: &Report) -> i32 {
             jobs.push((r, i, None));
         }
     }
-    if !quick {
+    {
         for r in 0..ROLES.len() {
             for r2 in (r + 1)..ROLES.len() {
-                for i in (0..pool.len()).step_by(3) {
+                for i in (0..pool.len()).step_by(if quick { 11 } else { 3 }) {
                     jobs.push((r, i, Some((r2, (i * 7 + 1) % pool.len()))));
                 }
             }
